@@ -6,6 +6,8 @@
    Go functions <-> definitions
      refstore.Store (AuthReqs, Codes, Refresh, seq)        st
      op.Authorize + Storage.CreateAuthRequest               do_authorize
+     op.ParseRequestObject / CopyRequestObjectToAuthRequest  ro_accepted, eff_uri / eff_scopes /
+        (the signed `request` parameter, both routers)          eff_nonce / eff_chal
      refstore.Login (test side)                             do_login
      op.AuthorizeCallback / AuthResponseCode / SaveAuthCode do_callback
      op.CodeExchange -> ValidateAccessTokenRequest
@@ -39,6 +41,10 @@ Record cfg := {
   f_post : bool;      (* Config.AuthMethodPost *)
   f_pkjwt : bool;     (* Config.AuthMethodPrivateKeyJWT *)
   f_refresh : bool;   (* Config.GrantTypeRefreshToken *)
+  f_reqobj : bool;    (* Config.RequestObjectSupported *)
+  f_keep : bool;      (* storage policy, not a provider flag: Storage.CreateAccessAndRefreshTokens hands the
+                         PRESENTED refresh token back as the valid one (non-rotating / sliding refresh
+                         tokens) instead of replacing it by a fresh one *)
   clients : list client
 }.
 
@@ -68,12 +74,52 @@ Definition challenge := (bool * string)%type.   (* (method is S256, challenge) *
    sub - that subject is handed to Storage.CreateAuthRequest -, None = does not verify
    (login_required, no request).  x_prompt: the prompt values; `none` never yields a request
    (invalid together with other values, login_required from the storage when alone). *)
-Record auth_extra := { x_hint : option (option string); x_prompt : list string }.
-Definition no_extra : auth_extra := {| x_hint := None; x_prompt := [] |}.
+(* A signed Request Object (OIDC Core 6.1, the `request` parameter).  ro_ok = the outcome of
+   op.ParseRequestObject's checks (client_id and response_type agree with the query, iss =
+   client_id, the provider is in aud, the signature verifies under a key registered for that
+   client).  The other fields are the members it carries; "" / [] / None = member absent.  A member
+   that is present supersedes the query parameter of the same name
+   (op.CopyRequestObjectToAuthRequest); `scope` does so only when the query scope has `openid`.
+   ro_cm: code_challenge_method, Some true = S256, Some false = plain. *)
+Record reqobj := {
+  ro_ok : bool; ro_uri : string; ro_scopes : list string; ro_nonce : string;
+  ro_cc : string; ro_cm : option bool
+}.
+
+Record auth_extra := { x_hint : option (option string); x_prompt : list string; x_ro : option reqobj }.
+Definition no_extra : auth_extra := {| x_hint := None; x_prompt := []; x_ro := None |}.
 Definition hinted_sub (x : auth_extra) : string :=
   match x_hint x with Some (Some sub) => sub | _ => "" end.
 Definition extra_ok (x : auth_extra) : bool :=
   negb (string_in "none" (x_prompt x)) && match x_hint x with Some None => false | _ => true end.
+
+(* The parameters of the authorization request proper: the query parameters, each superseded by
+   the member of the same name of the Request Object when there is one.  The PKCE pair is merged
+   member by member as well; a challenge without any method is a `plain` one (RFC 7636 4.3). *)
+Definition eff_uri (uri : string) (x : auth_extra) : string :=
+  match x_ro x with
+  | Some ro => if String.eqb (ro_uri ro) "" then uri else ro_uri ro
+  | None => uri
+  end.
+Definition eff_scopes (scopes : list string) (x : auth_extra) : list string :=
+  match x_ro x with
+  | Some ro => if string_in "openid" scopes && negb (match ro_scopes ro with [] => true | _ => false end)
+               then ro_scopes ro else scopes
+  | None => scopes
+  end.
+Definition eff_nonce (nonce : string) (x : auth_extra) : string :=
+  match x_ro x with
+  | Some ro => if String.eqb (ro_nonce ro) "" then nonce else ro_nonce ro
+  | None => nonce
+  end.
+Definition eff_chal (chal : option challenge) (x : auth_extra) : option challenge :=
+  match x_ro x with
+  | None => chal
+  | Some ro =>
+      let cc := if String.eqb (ro_cc ro) "" then match chal with Some c => snd c | None => "" end else ro_cc ro in
+      let cm := match ro_cm ro with Some m => m | None => match chal with Some c => fst c | None => false end end in
+      if String.eqb cc "" then None else Some (cm, cc)
+  end.
 
 Record areq := {
   q_id : nat; q_client : string; q_uri : string; q_scopes : list string;
@@ -254,14 +300,20 @@ Definition secret_ok (c : client) (sec : string) : option string :=
   else if String.eqb sec (c_secret c) then None else Some E_client.
 
 (* ---------- authorize / login / callback (same code on both routers) ---------- *)
+(* the `request` parameter is honoured only when the provider supports it and the object verifies;
+   otherwise no authorization request comes into being (invalid_request / request_not_supported) *)
+Definition ro_accepted (x : auth_extra) : bool :=
+  match x_ro x with None => true | Some ro => f_reqobj cf && ro_ok ro end.
+
 Definition do_authorize (s : st) cl uri scopes nonce chal (x : auth_extra) : st * out :=
   match find_client cf cl with
   | None => (s, OAuthz None)
   | Some c =>
-      if string_in uri (c_redirects c) && negb (is_nil scopes) && extra_ok x then
+      if ro_accepted x && string_in (eff_uri uri x) (c_redirects c) && negb (is_nil (eff_scopes scopes x)) && extra_ok x then
         let n := S (next s) in
-        ({| reqs := {| q_id := n; q_client := cl; q_uri := uri; q_scopes := scopes; q_nonce := nonce;
-                       q_chal := chal; q_done := false; q_sub := hinted_sub x; q_auth := 0;
+        ({| reqs := {| q_id := n; q_client := cl; q_uri := eff_uri uri x; q_scopes := eff_scopes scopes x;
+                       q_nonce := eff_nonce nonce x; q_chal := eff_chal chal x;
+                       q_done := false; q_sub := hinted_sub x; q_auth := 0;
                        q_extra := x |} :: reqs s;
             codes := codes s; rtoks := rtoks s; next := n; ncode := ncode s; norefresh := norefresh s |}, OAuthz (Some n))
       else (s, OAuthz None)
@@ -318,9 +370,14 @@ Definition narrowed (requested granted : list string) : option (list string) :=
   if is_nil requested then Some granted
   else if subset requested granted then Some requested else None.
 
+(* CreateTokenResponse(..., refreshToken) -> Storage.CreateAccessAndRefreshTokens(request, current):
+   a rotating storage (f_keep = false) drops the presented token and creates a fresh one, a
+   non-rotating storage (f_keep = true) keeps the presented token - now standing for the narrowed
+   grant - and creates an access token only.  Either way the response carries the refresh token
+   the storage returned. *)
 Definition issue_refresh (s : st) (t : rtok) (c : client) (scopes : list string) : st * out :=
-  let rid := S (next s) in
-  let aid := S rid in
+  let rid := if f_keep cf then r_id t else S (next s) in
+  let aid := if f_keep cf then S (next s) else S (S (next s)) in
   ({| reqs := reqs s; codes := codes s;
       rtoks := {| r_id := rid; r_client := r_client t; r_sub := r_sub t; r_aud := r_aud t;
                   r_auth := r_auth t; r_scopes := scopes |}
@@ -488,7 +545,8 @@ Definition code_step (H : string -> string) (cf : cfg) (r : router) (s : st) cr 
   match r with Provider => prov_code H cf s cr code uri ver | Legacy => legacy_code H cf s cr code uri ver end.
 
 Definition no_clients (cf : cfg) : cfg :=
-  {| f_post := f_post cf; f_pkjwt := f_pkjwt cf; f_refresh := f_refresh cf; clients := [] |}.
+  {| f_post := f_post cf; f_pkjwt := f_pkjwt cf; f_refresh := f_refresh cf; f_reqobj := f_reqobj cf;
+     f_keep := f_keep cf; clients := [] |}.
 Definition no_codes (s : st) : st :=
   {| reqs := reqs s; codes := []; rtoks := rtoks s; next := next s; ncode := ncode s; norefresh := norefresh s |}.
 
